@@ -18,3 +18,11 @@ chk("C18", "exploration",
     "(result, return value, no growth, idempotence, sanity equivalence). The enumeration is complete for the stated alphabet and length.",
     "Trusted: the specification function in harness/canon_enum.c; ASan red zones for out-of-string accesses.",
     "exhaustive enumeration against executable spec under ASan", "3/C18")
+chk("C02", "exploration",
+    "Inputs built to make completion order differ from submission order are packed by gensquashfs and tar2sqfs under many -j/-Q values, seeded delays "
+    "between the pool's critical sections, spurious wake-ups and process environments; every image must equal the NO_THREAD_IMPL serial build's bytes. "
+    "The hook log of every run is checked offline for the ordering invariants (tickets released in submission order, I/O sequence written gap-free by the "
+    "submitting thread, a file's blocks contiguous, fragment-block sequence fixed at overflow); a ThreadSanitizer build runs the same inputs; thorough adds valgrind memcheck "
+    "for uninitialised bytes reaching pwrite. Evidence reports the completion-order inversions actually observed.",
+    "Observed schedules only (no enumeration of the tools' interleavings; the pool itself is enumerated in C09). TSan cannot see inside the compressor libraries.",
+    "differential bytes + offline trace checker over hook log + ThreadSanitizer", "3/C02")
